@@ -59,7 +59,8 @@ def builds(ctx, sub, opt="-O2"):
         _built[opt] = vlib.build_c("drv_parsenum_asan" + ("" if opt == "-O2" else "_" + opt.strip("-")),
                                    "drv_parsenum.c", ["util/humansize.c", "util/asprintf.c", "util/warnp.c"],
                                    extra_sources=["drv_parsenum_p%d.c" % k for k in range(gsites.NPARTS)],
-                                   cflags=[opt], asan=True)
+                                   wraps=["malloc", "strdup"],      # the library's own allocations (hs: re-entry)
+                                   cflags=[opt, "-fno-builtin-malloc", "-fno-builtin-strdup"], asan=True)
     mexe, merr, sl, stale = _built["common"]
     exe, err = _built[opt]
     if stale:
@@ -699,6 +700,10 @@ def check_humansize(ctx):
     ctx.record(sub, cases, set(zip(cases, impl)),
                "humansize on every m*10^k +-2 boundary (m in 1,10,100,999,9999,99999), 2^64-1 and random 64-bit values: "
                "impl = model = greatest representable value rendered (search over all 7480 documented forms); "
+               "two requests in progress at once: in three quarters of the hs cases (chosen by the case text) humansize() of "
+               "ANOTHER size runs inside the allocation the outer call makes (malloc / strdup of the library interposed) and "
+               "is compared with the same call made alone beforehand (`!other-request-disturbed`); the outer result must "
+               "still be the model's; "
                "humansize_parse on the language digits ' '? [kMGTPE]? B? around the per-prefix overflow limit, "
                "one-byte mutations and random strings: impl = model = hs_parse_spec",
                samples=[cases[0], describe(cases[-1])[:200]])
